@@ -610,6 +610,36 @@ class Program(object):
             self._writes[q] = w
         return w
 
+    def rebinds(self, func, _stack=None):
+        """attributes of func's own class that may be *rebound* (self.a = .., self.a += .., del self.a, wildcard), transitively
+        over resolved self-calls -- in-place mutation of the object an attribute holds is not a rebinding"""
+        q = func.qualname
+        cache = self.__dict__.setdefault('_rebinds', {})
+        if q in cache:
+            return cache[q]
+        _stack = _stack or set()
+        if q in _stack:
+            return set()
+        _stack = _stack | {q}
+        w = set()
+        for a in self.accesses(func, include_nested=False):
+            if a.kind in ('write', 'aug', 'del'):
+                w.add(a.attr)
+            elif a.kind == 'wildcard':
+                w.add('*')
+        for c in self.calls_in(func):
+            r = self.resolve_call(func, c)
+            if r.kind == 'method':
+                for t in r.targets:
+                    if t.owner_cls is func.owner_cls or (func.owner_cls is not None and t.owner_cls in self.mro(func.owner_cls)) \
+                            or (t.owner_cls is not None and func.owner_cls in self.mro(t.owner_cls)):
+                        w |= self.rebinds(t, _stack)
+            elif r.kind in ('foreign', 'unresolved') and isinstance(c.func, ast.Attribute) and self.self_attr(c.func, func.self_name):
+                pass        # a callback stored in an attribute: assumed not to rebind attributes of this object (see assumptions)
+        if len(_stack) == 1:
+            cache[q] = w
+        return w
+
     def reads(self, func, _stack=None):
         q = func.qualname
         if q in self._reads:
